@@ -387,6 +387,9 @@ def discharge(ctx, s, scope=None):
             hi = _const_int(d0[2][2]) if not (d0[2][2].tag == 'const' and d0[2][2][1] is None) else None
             if base.tag == 'array' and lo is not None:
                 n_dst = (hi if hi is not None else len(base.args)) - lo
+            elif base.tag == 'repeatv' and str(base[2]).isdigit() and lo is not None:
+                # [x; N]
+                n_dst = (hi if hi is not None else int(base[2])) - lo
         width = None
         s0 = src
         while s0.tag == 'mut':
